@@ -8,6 +8,7 @@ import Driver.Rooms
 import Driver.Backoff
 import Driver.Heartbeat
 import Driver.Ack
+import Driver.Mw
 /-
   Line-protocol driver: one request per line on stdin, one canonical answer per line on stdout.
   The same request lines are executed by the Go harness against the real implementation.
@@ -28,6 +29,7 @@ def step (line : String) : String :=
   | "bo" :: rest => boLine rest
   | "hb" :: rest => hbLine rest
   | "ack" :: rest => ackLine rest
+  | "mw" :: rest => mwLine rest
   | "rc" :: rest => rcLine toks.tail!
   | _ => "bad-op"
 
